@@ -26,7 +26,7 @@ ASSUMPTIONS = [
     'raffle::CheckingParameters::check is a pure const fn (table entry, version pinned by Cargo.lock)',
 ]
 
-FLOORS = {'R18.1': 8, 'R18.2': 3, 'R18.3': 6, 'R18.4': 4}
+FLOORS = {'R18.1': 8, 'R18.2': 3, 'R18.3': 6, 'R18.4': 5}
 
 BLOCKING = ['std::sync::Mutex', 'std::sync::RwLock', 'std::sync::Condvar', 'std::sync::Barrier', 'std::sync::Once',
             'std::sync::LazyLock', 'std::sync::OnceLock', 'std::sync::mpsc', 'std::sync::mpmc', 'std::sync::ReentrantLock',
@@ -195,6 +195,16 @@ def r18_4(cx):
     inside = [x for x in phi_alts(a) + phi_alts(c) if x.strip().pos is not None and x.strip().pos.bb in body]
     cx.check(bool(inside), 'reload-in-loop', fn, fn.loc(b), 'a sequence load happens in every iteration',
              fail_detail='the compared sequence value is never re-loaded inside the loop')
+    # both comparands must be refreshed on a retry: a comparand that is only ever the value loaded before the
+    # loop can never become equal again once the sequence has moved (the reader then spins with no writer active)
+    stale = []
+    for side in (a, c):
+        alts = phi_alts(side)
+        if not any(x.strip().pos is not None and x.strip().pos.bb in body for x in alts):
+            stale.append(show(side)[:80])
+    cx.check(not stale, 'both-sides-refreshed', fn, fn.loc(b), 'on a retry both compared values come from loads made inside the loop',
+             fail_detail='the retry compares against a value loaded before the loop (%s): once the sequence has changed the test can never '
+             'succeed again and snapshot spins forever although no write is in progress' % '; '.join(stale))
     callees_in_loop = []
     for cs in fn.calls():
         if cs.bb in body and cs.key in cx.prog.fns:
